@@ -25,14 +25,14 @@ Long == IF LongScripts
 HdrOf(f) == f \in {"xml", "pbf"}
 TrlOf(f) == f = "xml"
 
-Faults(comp) ==
+Faults(comp, pool) ==
    {NoFault}
    \cup (IF "write" \in FaultKinds THEN {[k |-> "write", at |-> o] : o \in 0..MaxAt} ELSE {})
    \cup (IF "fsync" \in FaultKinds THEN {[k |-> "fsync", at |-> 0]} ELSE {})
    \cup (IF "close" \in FaultKinds THEN {[k |-> "close", at |-> n] : n \in 1..(IF comp = "gzip" THEN 2 ELSE 1)} ELSE {})
    \cup (IF "cwrite" \in FaultKinds /\ comp = "plain" THEN {[k |-> "cwrite", at |-> n] : n \in 1..3} ELSE {})
    \cup (IF "cclose" \in FaultKinds /\ comp = "plain" THEN {[k |-> "cclose", at |-> 0]} ELSE {})
-   \cup (IF "epool" \in FaultKinds THEN {[k |-> "epool", at |-> n] : n \in 1..2} ELSE {})
+   \cup (IF "epool" \in FaultKinds /\ pool THEN {[k |-> "epool", at |-> n] : n \in 1..2} ELSE {})
    \cup (IF "ehdr" \in FaultKinds THEN {[k |-> "ehdr", at |-> 0]} ELSE {})
    \cup (IF "ebuf" \in FaultKinds THEN {[k |-> "ebuf", at |-> n] : n \in 1..2} ELSE {})
    \cup (IF "eend" \in FaultKinds THEN {[k |-> "eend", at |-> 0]} ELSE {})
@@ -43,7 +43,7 @@ Mk(s, f, comp, sync, fl, pool, b, cap) ==
 
 TheConfigs ==
   UNION {
-   {Mk(s, f, comp, (fl.k = "fsync"), fl, pool, b, cap) : s \in ShortScripts \cup Long, fl \in Faults(comp)}
+   {Mk(s, f, comp, (fl.k = "fsync"), fl, pool, b, cap) : s \in ShortScripts \cup Long, fl \in Faults(comp, pool)}
    : f \in Formats, comp \in Comps, pool \in Pools, b \in Bounds, cap \in Caps}
 
 AllKinds == {"write", "fsync", "close", "cwrite", "cclose", "epool", "ehdr", "ebuf", "eend"}
@@ -73,7 +73,7 @@ RealConfigs ==
    : s \in GenScripts, f \in GenFormats, comp \in GenComps, sync \in BOOLEAN}
 MockConfigs ==
   UNION {
-   {Mk(s, "xml", "plain", FALSE, fl, pool, 2, 2) : fl \in GenMockFaults}
+   {Mk(s, "xml", "plain", FALSE, fl, pool, 2, 2) : fl \in {f \in GenMockFaults : f.k = "epool" => pool}}
    : s \in GenScripts, pool \in BOOLEAN}
 
 InitOnly == Init /\ [][FALSE]_vars
